@@ -31,7 +31,7 @@ PROP = {
     # n = number of random programs; each is compiled for 22 (target, options) configurations,
     # R = 4 (quick) / 12 (thorough) separate compiler processes each + 1 in-process compile
     "suites": [("cc", "c19", {"quick": 3, "thorough": 12})],
-    "rule": "Big programs = 14-19 IDL files in sub-directories (root with >= 12 includes, scopes, services, structs, enums, namespaces; one more many-entries file; typedefs, constants incl. map constants, unions, exceptions, cross-file service inheritance, vendored includes whose vendor path does not end in the package name, annotations, docstrings; distinct file base names) compiled for 22 base (target, options) configurations; small programs (4-5 files) compiled for the OPTION SWEEP = for every target of the compiler's own option table (generator.Languages, read at run time) no option, every option alone and every pair of options (98 configurations now; dated java generated_annotations excluded). Every compilation is a separate process of the real compiler binary with a FRESH -out, from 8 layouts: neutral cwd without go.mod; ADVERSARIAL cwd inside a scratch Go module that declares look-alike packages for every package name (and exported symbol) the first run's emitted Go imports, refers to or declares, plus a static list (logrus, thrift, frugal, context, fmt, bytes, errors, sync, time, ...); cwd = the -out directory; cwd = copy of the sources at another absolute path with relative file/-out; cwd inside a GOPATH-like tree with the same look-alike packages and a vendor directory; cwd inside the frugal repository; -out inside a Go module; the adversarial module root (quick: big programs layouts 0-3 + one in-process compile, sweep: neutral + adversarial + two more in rotation; thorough: all). The oracle compares the set of emitted relative paths and the sha256 of every file. Correspondence cases: c19ord = generation order from the -v log vs the model's traversal; c19mods = module order of html index.html vs the model; c19site = one per census site (source now vs committed classification).",
+    "rule": "Big programs = 14-19 IDL files in sub-directories (root with >= 12 includes, scopes, services, structs, enums, namespaces; one more many-entries file; typedefs, constants incl. map constants, unions, exceptions, cross-file service inheritance, vendored includes whose vendor path does not end in the package name, annotations, docstrings; distinct file base names) compiled for 22 base (target, options) configurations; small programs (4-5 files) compiled for the OPTION SWEEP = for every target of the compiler's own option table (generator.Languages, read at run time) no option, every option alone and every pair of options (98 configurations now; dated java generated_annotations excluded). Every compilation is a separate process of the real compiler binary with a FRESH -out, from 8 layouts: neutral cwd without go.mod; ADVERSARIAL cwd inside a scratch Go module that declares look-alike packages for every package name (and exported symbol) the first run's emitted Go imports, refers to or declares, plus a static list (logrus, thrift, frugal, context, fmt, bytes, errors, sync, time, ...); cwd = the -out directory; cwd = copy of the sources at another absolute path with relative file/-out; cwd inside a GOPATH-like tree with the same look-alike packages and a vendor directory; cwd inside the frugal repository; -out inside a Go module; the adversarial module root (quick: big programs layouts 0-3 + one in-process compile, sweep: neutral + adversarial + two more in rotation; thorough: all). Programs with a REPEATED BASE NAME (two files in different directories, never included by one file) are compiled for all 22 base configurations with 6 repetitions; only html index.html of such a program is outside the comparison (recorded finding). OUTPUT-DIRECTORY HISTORY: for every base configuration the small program is also compiled into a directory that already holds (a) the same program with other options of the target, (b) a superset, (c) a subset of the program (one service + scope of the root file), (d) another target, (e) the same compile; oracle: exactly the paths a fresh-directory compile produces are byte-identical there (files the compile does not write may remain). The oracle of the layout runs compares the set of emitted relative paths and the sha256 of every file. Correspondence cases: c19ord = generation order from the -v log vs the model's traversal; c19mods = module order of html index.html vs the model; c19site = one per census site (source now vs committed classification).",
     "trusted": ["Modelled, not verified: Go's map iteration as 'any permutation', sort.Sort as 'any sorted permutation', filepath.Abs/Rel/Join on lists of segments; text/template, encoding/json, yaml.v2, goimports and the text produced inside each generator function are NOT modelled (hash comparison only)",
                 "the census extractor (harness/cc/census19.go, go/ast only; its map-typedness inference was cross-checked once against go/types: 7 of 7 map ranges; census19_imports.go pairs every `var _ = pkg.Sym` line and every package-qualified text of the Go generator with the import lines the generator itself emits and the option guards they are under)"],
     "level_text": "Partial — named. Theorems (Lean 4, no bound on sizes) that every MODELLED pattern through which run-to-run or location variation could reach the output is insensitive to it: sorted permutations of a list with distinct keys are unique, so an unstable sort of any iteration order of a map is a function of the set (c19_sorted_perm_unique, c19_sort_of_any_order, c19_ordered_includes_perm); keys-then-sort (c19_keys_sort), commutative insertion (c19_insert_commutes), lookup (c19_lookup_order_independent) are permutation-invariant; the modelled traversal generateFrugalRec/OrderedIncludes/ParsedIncludes yields the same file sequence for all permutations and generates every file once (c19_order_independent, c19_generated_once); the modelled output-path computation is independent of source root and cwd and equivariant in -out, incl. python's Rel(Abs,Abs) (c19_location_independent). c19_census_all_classified (decide, on a table regenerated from /repo on every check) ties 'these are all the sites' (map ranges, sorts, clock/cwd/env reads, marshalled maps, template ranges under compiler/** and main.go; for the Go generator, whose output is post-processed by goimports, every emitted import line with its option guard and every package the emitted text refers to — an import left for goimports to add is a location-dependent site and cannot be classified) to the committed classification. The html module list is only proved for distinct module names (c19_html_modules_partial) and the counterexample for equal names is a recorded known finding.",
